@@ -37,7 +37,7 @@ func genReject(t *rapid.T) RejectCase {
 	if len(c.Params.Q) >= 2 {
 		kinds = append(kinds, "levelQ")
 	}
-	if len(c.Params.P) >= 2 {
+	if len(c.Params.P) >= 1 {
 		kinds = append(kinds, "levelP")
 	}
 	if c.Proto == "gal" {
@@ -71,8 +71,9 @@ func genReject(t *rapid.T) RejectCase {
 		c.KeyB.LevelQ = (c.KeyA.LevelQ + rapid.IntRange(1, m-1).Draw(t, "lqBoff")) % m
 	case "levelP":
 		m := len(c.Params.P)
-		c.KeyA.LevelP = rapid.IntRange(0, m-1).Draw(t, "lpA")
-		c.KeyB.LevelP = (c.KeyA.LevelP + rapid.IntRange(1, m-1).Draw(t, "lpBoff")) % m
+		// levels -1 (no auxiliary modulus used) .. m-1
+		c.KeyA.LevelP = rapid.IntRange(-1, m-1).Draw(t, "lpA")
+		c.KeyB.LevelP = (c.KeyA.LevelP+1+rapid.IntRange(1, m).Draw(t, "lpBoff"))%(m+1) - 1
 	case "galEl":
 		for i := 0; c.GalB == c.GalA; i++ {
 			c.GalB = genGalElLabel(t, c.Params, fmt.Sprintf("B%d", i))
